@@ -147,6 +147,9 @@ pub struct NatWorker {
     pub fac: InstructionInfoFactory,
     /// native post-state of the last case (for program sweeps that chain transitions)
     pub last_native: Option<NativeOut>,
+    /// (Code|form) pairs that answered "unimplemented" on the pinned tree: an Err from one of
+    /// them is a by-design rejection whatever its wording
+    pub pinned_unimplemented: std::collections::BTreeSet<String>,
 }
 
 const EMU_REGIONS: [(Region, u64, u32); 5] = [
@@ -172,6 +175,7 @@ impl NatWorker {
             base,
             fac: InstructionInfoFactory::new(),
             last_native: None,
+            pinned_unimplemented: load_pinned_unimplemented(),
         }
     }
 
@@ -283,7 +287,10 @@ impl NatWorker {
             {
                 bucket = Bucket::NativeNonCanonical;
             }
-            (StepOut::Err(msg), _) if emu::is_unimplemented_msg(msg) => {
+            (StepOut::Err(msg), _)
+                if emu::is_unimplemented_msg(msg)
+                    || self.pinned_unimplemented.contains(&format!("{:?}|{}", i.code(), form)) =>
+            {
                 bucket = Bucket::Unimplemented;
             }
             (StepOut::Ok(_), 0) => {
@@ -550,6 +557,23 @@ impl NatWorker {
             }
         }
     }
+}
+
+fn load_pinned_unimplemented() -> std::collections::BTreeSet<String> {
+    let p = std::path::Path::new(crate::common::VERIF_ROOT).join("baseline").join("forms_pinned.json");
+    let mut out = std::collections::BTreeSet::new();
+    if let Ok(t) = std::fs::read_to_string(p) {
+        if let Ok(v) = serde_json::from_str::<Value>(&t) {
+            if let Some(a) = v["unimplemented_forms"].as_array() {
+                for e in a {
+                    if let Some(s) = e.as_str() {
+                        out.insert(s.to_string());
+                    }
+                }
+            }
+        }
+    }
+    out
 }
 
 fn span(v: &[usize]) -> String {
